@@ -303,6 +303,6 @@ pub fn def() -> PropertyDef {
             "the copy returned by ExtendedMask::blindings() belongs to the caller and is not scanned".into(),
         ],
         exhaustive: false,
-        subs: vec![sub("R/freed-block-scan", no_fixed, (600, 20_000), |_: &RunCtx, _: Option<&()>| wipe_strategy(), oracle)],
+        subs: vec![sub("R/freed-block-scan", no_fixed, (1200, 20_000), |_: &RunCtx, _: Option<&()>| wipe_strategy(), oracle)],
     }
 }
